@@ -485,12 +485,22 @@ parameters and query). -/
 theorem C12_url_codec_roundtrip (pathMode : Bool) (s : Bytes) : urlDecode (urlEncode pathMode s) = some s :=
   urlDecode_urlEncode pathMode s
 
+/-- C12_url_roundtrip_path: a target that is a path only (no parameters, query or fragment),
+whatever bytes the path contains, survives `UrlPathToString` → `StringToUrlPath`. -/
+theorem C12_url_roundtrip_path (path : Bytes) (hp : path.head? = some 47) :
+    parseUrlPath (urlPathToString ⟨path, [], [], []⟩) = some ⟨path, [], [], []⟩ :=
+  urlPath_roundtrip_path path hp
+
 /-
--- OPEN: `StringToUrlPath (UrlPathToString u) = u` for every UrlPath with non-empty keys. False as coded
--- because of the fragment (next theorem); for fragment-free paths it needs "the encoder never emits
--- ; = & ? #" plus the Split lemmas — not closed. StringToUrl / UrlToString / UrlHostToString /
--- StringToUrlHost (absolute URLs) are called from nowhere in the library except their unit tests and are
--- not on any path of the HTTP server: out of C12's scope.
+-- OPEN: `StringToUrlPath (UrlPathToString u) = u` for every fragment-free UrlPath whose parameter / query
+-- maps are key-sorted with NON-EMPTY keys. The hypotheses are all needed: the fragment is printed unencoded
+-- (next theorem) and a key that decodes to "" (target "/p?%=1": the truncated escape is dropped) is printed as
+-- "?=1", which the parser rejects (found by the `rt=` field of the tie). Proved so far: the codec round trip,
+-- "the encoder never emits ; ? # = &" (ProofsUrl.urlEncode_clean) and the path-only case above; the remaining
+-- step (Split over the joined encodings and `foldl mapInsert` over a key-sorted list being the identity)
+-- is not closed. The tie compares `StringToUrlPath(UrlPathToString(url)) == url` for every delivered request.
+-- StringToUrl / UrlToString / UrlHostToString / StringToUrlHost (absolute URLs) are called from nowhere in
+-- the library except their unit tests and are not on any path of the HTTP server: out of C12's scope.
 -/
 
 /-- the fragment is printed unencoded but decoded when parsed: "%41" comes back as "A" -/
